@@ -130,8 +130,11 @@ Definition min_num_nulls (how_any : bool) (thresh : option Z) (nchk : Z) : Z :=
   | None => if how_any then 1 else nchk
   end.
 
-Definition dropna_guard (how_any : bool) (thresh : option Z) (chk : list string) : bool :=
-  min_num_nulls how_any thresh (Z.of_nat (List.length chk)) <=? Z.of_nat (List.length chk).
+(** `_unused_column_name`: the name, with underscores appended until it is not one of the given names
+    (at most [length used] underscores are ever needed) *)
+Fixpoint fresh_aux (fuel : nat) (name : string) (used : list string) : string :=
+  if mem name used then match fuel with O => name | S f => fresh_aux f (name ++ "_")%string used end else name.
+Definition fresh_name (base : string) (used : list string) : string := fresh_aux (List.length used) base used.
 
 Section ModelX.
   Variable c : cfg.
@@ -180,13 +183,13 @@ Section ModelX.
             let chk := match subset with [] => all | _ => subset end in
             (* new_df.select(num_nulls, append=True): the wrapper decides first, then the item is appended *)
             let d2 := pre_wrap c (OSelect []) (pre_init c d1) in
-            let d3 := mkDf (done d2) (set_sel (cur d2) (b_sel (cur d2) ++ [(num_nulls_expr chk, "num_nulls"%string)]))
+            let nn := fresh_name "num_nulls" all in         (* a helper name that is not a current column *)
+            let d3 := mkDf (done d2) (set_sel (cur d2) (b_sel (cur d2) ++ [(num_nulls_expr chk, nn)]))
                            (new_kind c (OSelect []) (last d1)) in
-            let d4 := step c d3 (OWhere (EBin Lt (ECol "num_nulls")
+            let d4 := step c d3 (OWhere (EBin Lt (ECol nn)
                                            (ELit (VInt (min_num_nulls how thresh (Z.of_nat (List.length chk))))))) in
             let d5 := step c d4 (OSelect (passthrough all)) in
-            (* "The minimum num nulls for dropna must be less than or equal to the number of columns": RuntimeError *)
-            if dropna_guard how thresh chk then Some (set_last d5 new) else None
+            Some (set_last d5 new)
         | None => None
         end
     | XDropDup _ | XUnpivot _ _ _ _ | XAgg _ _ => None      (* not a chain of SELECT blocks: ChainStages.step_y *)
